@@ -576,10 +576,12 @@ class Parser:
                 if '\n' in txt:
                     pos = txt.find('\n') + 1
                     t2.txt = txt[pos:]
-                    t2.pos += pos
                 else:
+                    pos = len(txt)
                     t2.txt = ''
-                    t2.pos += len(txt)
+                if not t2.pos_fix:
+                    # all characters of a fixed token share its position
+                    t2.pos += pos
                 buf = [t1] + lang_toks
                 tokens.append(eval(t2))
                 # NB: we deleted a line break
